@@ -10,6 +10,7 @@ import (
 	"fmt"
 	"os"
 	"path/filepath"
+	"strings"
 	"sync"
 	"time"
 )
@@ -133,7 +134,9 @@ func RunHistory(e *Env, g *Gen, steps int) ([]*Obs, error) {
 			} else if deadlineInside(pre, o.Lo, o.Hi, ages) {
 				o.Skip = "deadline-inside-call"
 			}
-		} else if time.Duration(o.Hi-o.Lo) > guardSlow {
+		} else if time.Duration(o.Hi-o.Lo) > guardSlow && !strings.HasPrefix(g.profile, "bulk") {
+			// (the bulk profile's calls touch a thousand rows and are slow by design; the
+			// deadline test below is the one that matters for soundness)
 			o.Skip = "slow-call"
 		} else if deadlineInside(pre, o.Lo, o.Hi, ages) {
 			o.Skip = "deadline-inside-call"
